@@ -1847,7 +1847,34 @@ impl DistributedTxCoordinator {
             );
         }
 
+        let mut swept = Vec::with_capacity(timed_out.len());
         for tx_id in &timed_out {
+            // A timeout is an abort decision: it is broadcast to the participants and the
+            // locks are released.  Log it the way `abort` does BEFORE it takes effect, or a
+            // coordinator restarted from the WAL would bring the transaction back as
+            // Prepared and could commit what its participants were told to abort.  If the
+            // WAL cannot be written the transaction stays pending for the next sweep.
+            let Some(from_phase) = pending.get(tx_id).map(|tx| tx.phase) else {
+                continue;
+            };
+            let logged = self
+                .log_wal_entry(&TxWalEntry::PhaseChange {
+                    tx_id: *tx_id,
+                    from: from_phase,
+                    to: TxPhase::Aborting,
+                })
+                .and_then(|()| {
+                    self.log_wal_entry(&TxWalEntry::TxComplete {
+                        tx_id: *tx_id,
+                        outcome: TxOutcome::Aborted,
+                    })
+                });
+            if let Err(e) = logged {
+                tracing::error!(tx_id = tx_id, error = %e, "Failed to log timeout abort to WAL");
+                continue;
+            }
+            swept.push(*tx_id);
+
             if let Some(tx) = pending.remove(tx_id) {
                 tracing::warn!(
                     tx_id = tx_id,
@@ -1885,7 +1912,7 @@ impl DistributedTxCoordinator {
             tracing::debug!(count = expired_locks, "Cleaned up expired locks");
         }
 
-        timed_out
+        swept
     }
 
     pub fn pending_count(&self) -> usize {
